@@ -1,4 +1,5 @@
 import NjectProofs.IncludeDesReq
+import NjectProofs.IncludeDesReq2
 import NjectProps.C14Rounds2
 /-
   C14, "a Desired provider is included exactly when the same chain with that provider Required would bind", for ONE run of
@@ -32,6 +33,31 @@ theorem C14_validation_keeps_desired_iff_required_succeeds (b : Bool) (x x' : Ch
   · right
     refine ⟨?_, hy⟩
     have hfix := (validate_fix b x x' h hs).2
+    cases hi : (x'.get d).inc with
+    | false => rfl
+    | true => rw [(hfix d hi).1] at hc; cases hc
+
+/-- **C14 (flow computation + validation)**: compute the flows and validate -- the first stage of the include computation, and
+    with the pruned chain as input also its last -- on a chain in which provider `d` is Desired, and on the same chain with
+    `d` Required: `d` is kept in the first exactly when the second succeeds, and then every provider is marked alike.  The flow
+    computation itself does not look at the two flags (`providesReturns_RelD`). -/
+theorem C14_flows_and_validation_desired_vs_required (ti : TyInfo) (x0 x' : Chain) (ip : Option Nat) (d : Nat) (b : Bool)
+    (hip : ∀ p, ip = some p → p < x0.length)
+    (hd : d < x0.length) (hreq : (x0.get d).c.required = false) (hx : (x0.get d).excluded = false)
+    (h : validate b (providesReturns ti x0 ip) = .ok x') :
+    ((x'.get d).inc = true ∧ ∃ y', validate b (providesReturns ti (x0.upd d reqF) ip) = .ok y' ∧
+        ∀ j, (y'.get j).inc = (x'.get j).inc ∧ (y'.get j).cannot = (x'.get j).cannot) ∨
+    ((x'.get d).inc = false ∧ validate b (providesReturns ti (x0.upd d reqF) ip) = .error .required) := by
+  have hrel := providesReturns_RelD (RelD_setReq x0 d hd) ti ip
+  have hsf := providesReturns_SF ti x0 ip
+  have hxf := providesReturns_XF ti x0 ip
+  have hs := providesReturns_sym ti x0 ip hip
+  rcases validate_desired_vs_required b d _ _ x' hrel hs (by rw [hsf.1]; exact hd)
+      (by rw [(hsf.2 d).2.2.1]; exact hreq) (by rw [(hxf.2 d).1]; exact hx) h with ⟨_, hinc, y', hy, hr⟩ | ⟨hc, hy⟩
+  · exact Or.inl ⟨hinc, y', hy, fun j => ⟨(RelD_fields hr j).1, (RelD_fields hr j).2.1⟩⟩
+  · right
+    refine ⟨?_, hy⟩
+    have hfix := (validate_fix b _ x' h hs).2
     cases hi : (x'.get d).inc with
     | false => rfl
     | true => rw [(hfix d hi).1] at hc; cases hc
